@@ -182,7 +182,7 @@ pub trait SVDDecomposableMatrix<T: RealNumber>: BaseMatrix<T> {
 
         for i in (0..n).rev() {
             if i < n - 1 {
-                if g != T::zero() {
+                if g.abs() >= T::min_positive_value() {
                     for j in l..n {
                         v.set(j, i, (U.get(i, j) / U.get(i, l)) / g);
                     }
@@ -213,7 +213,7 @@ pub trait SVDDecomposableMatrix<T: RealNumber>: BaseMatrix<T> {
                 U.set(i, j, T::zero());
             }
 
-            if g != T::zero() {
+            if g.abs() >= T::min_positive_value() {
                 g = T::one() / g;
                 for j in l..n {
                     let mut s = T::zero();
